@@ -92,11 +92,11 @@
               fmoves + cw_fsteps(self.states@, self.mapper.table@, state_id as int, mapped_c) == cw_fsteps(self.states@, self.mapper.table@, s0 as int, mapped_c),
     decreases cw_rank(self.states@, false, state_id as int)
 //@}
-//@before 1 return state_id;{
+//@before 1 return{
     // the loop made exactly cw_fsteps fail moves (lemma_cw_moves_from_root: at most 2n transitions over n characters)
     proof { assert(fmoves == cw_fsteps(self.states@, self.mapper.table@, s0 as int, mapped_c)); }
 //@}
-//@before 1 return ROOT_STATE_IDX;{
+//@before 2 return{
     proof { assert(fmoves == cw_fsteps(self.states@, self.mapper.table@, s0 as int, mapped_c)); }
 //@}
 //@before 1 state_id = (&self.states{
